@@ -75,6 +75,29 @@ pub trait MetadataClient: Send + Sync {
     async fn complete_compaction(&self, source_chunks: &[String], target_chunk: &str)
         -> Result<()>;
 
+    /// Publish a compacted chunk: make `target` visible and drop `source_chunks` in one step,
+    /// at level `max(source levels) + 1`.
+    ///
+    /// Fails without changing anything if one of the sources is no longer registered (it was
+    /// compacted or deleted by someone else in the meantime). Backends override this with an
+    /// atomic implementation; the default is a best-effort sequence of the primitive calls.
+    async fn publish_compaction(
+        &self,
+        source_chunks: &[String],
+        target: &ChunkMetadata,
+    ) -> Result<()> {
+        for source in source_chunks {
+            if self.get_chunk(source).await?.is_none() {
+                return Err(crate::Error::Metadata(format!(
+                    "Compaction source chunk no longer in catalog: {}",
+                    source
+                )));
+            }
+        }
+        self.register_chunk(&target.path, target).await?;
+        self.complete_compaction(source_chunks, &target.path).await
+    }
+
     /// Update compaction job status
     async fn update_compaction_status(&self, job_id: &str, status: CompactionStatus) -> Result<()>;
 
